@@ -138,6 +138,8 @@ pub enum MEv {
     GetTime { assoc: u16, t: Option<u64> },
     /// a user request completed: (user op id, outcome text, ok?)
     UserDone { id: u64, ok: bool, outcome: String },
+    /// FileReader callbacks of user request `id`: what = opened / block / aborted / completed
+    File { id: u64, what: String, block: u32, len: usize, content_ok: bool, detail: String },
 }
 
 #[derive(Default)]
@@ -417,5 +419,43 @@ impl MasterNode {
 
     pub fn event_count(&self) -> usize {
         self.rec.lock().unwrap().log.len()
+    }
+}
+
+/// content of octet `i` of block `b` of every file the scripted outstation serves
+pub fn file_octet(block: u32, i: usize) -> u8 {
+    (block.wrapping_mul(31).wrapping_add(i as u32 * 7).wrapping_add(3)) as u8
+}
+
+/// recording FileReader; aborts in `opened` (abort_at == Some(0)) or at block abort_at - 1
+pub struct FReader {
+    pub rec: MRec,
+    pub id: u64,
+    pub abort_at: Option<u32>,
+}
+
+impl crate::master::FileReader for FReader {
+    fn opened(&mut self, size: u32) -> crate::master::FileAction {
+        self.rec.lock().unwrap().push(MEv::File { id: self.id, what: "opened".to_string(), block: 0, len: size as usize, content_ok: true, detail: String::new() });
+        if self.abort_at == Some(0) {
+            crate::master::FileAction::Abort
+        } else {
+            crate::master::FileAction::Continue
+        }
+    }
+
+    fn block_received(&mut self, block_num: u32, data: &[u8]) -> crate::app::MaybeAsync<crate::master::FileAction> {
+        let content_ok = data.iter().enumerate().all(|(i, x)| *x == file_octet(block_num, i));
+        self.rec.lock().unwrap().push(MEv::File { id: self.id, what: "block".to_string(), block: block_num, len: data.len(), content_ok, detail: String::new() });
+        let action = if self.abort_at == Some(block_num + 1) { crate::master::FileAction::Abort } else { crate::master::FileAction::Continue };
+        crate::app::MaybeAsync::ready(action)
+    }
+
+    fn aborted(&mut self, err: crate::master::FileError) {
+        self.rec.lock().unwrap().push(MEv::File { id: self.id, what: "aborted".to_string(), block: 0, len: 0, content_ok: true, detail: format!("{:?}", err) });
+    }
+
+    fn completed(&mut self) {
+        self.rec.lock().unwrap().push(MEv::File { id: self.id, what: "completed".to_string(), block: 0, len: 0, content_ok: true, detail: String::new() });
     }
 }
